@@ -53,6 +53,12 @@ CHECKS.update({
     note="Trusted: TLC, Lexical.tla (offset range -1200..+1400; .5, 5., +5 for SI and years below 1000 get no acceptance verdict). The five classes are shared by all versions that define them; the full grid runs once per distinct class plus a sample per further version. Known finding: TOLERANT re-spells valid numbers.",
     ref="DESIGN.md §4 C13, §3.3"),
 })
+CHECKS.update({
+ "C14": dict(technique="TLA+ definition of which child a spelling designates (Resolve.tla) model-checked by TLC over small clashing structures; every table row probed on real elements through all spellings, judged by the TLC trace specification ResolveTrace",
+    text="For every (version, segment) every field row is written through one spelling (HL7 name / long name x upper / lower / mixed case, cycling), read back (object identity and value) through all the others and deleted through another; per complex datatype (quick: 12 per version, thorough: all) the same for components (plus the positional path <field>_<j>) and subcomponents (plus <field>_<j>_<k>); names of other parents, non-existent indices, index 0 and unknown long names must raise ChildNotFound/ChildNotValid for reads and writes. TLC computes from the exported rows which child each spelling designates (unique long name, not an attribute name, not shadowed by a row name) and decides every probe.",
+    note="Trusted: TLC, Resolve.tla, the harness' case folding. Long names that are ambiguous or shadowed get no verdict. Known findings: the v2.1 RX1_25 and 2.7/2.8.2 PV1_52 table defects.",
+    ref="DESIGN.md §4 C14, §3.6"),
+})
 NOT_YET = {}
 def main():
     props = [json.loads(l) for l in open(os.path.join(HERE, "properties.jsonl"))]
